@@ -101,7 +101,7 @@ static std::string checkLP(const SPxLPBase<T>& lp, const char* tag)
    std::ostringstream o;
    int m = lp.nRows(), n = lp.nCols();
    long nnzR = 0, nnzC = 0;
-   int badidx = 0, dup = 0, zero = 0, nan = 0, lbub = 0, lhsrhs = 0, mirror = 0, infc = 0;
+   int badidx = 0, dup = 0, zero = 0, nan = 0, lbub = 0, lhsrhs = 0, mirror = 0, infc = 0, infside = 0;
    const T big = T(1e100);
    const T mbig = T(-1e100);
    std::map<std::pair<int, int>, T> byRow;
@@ -140,6 +140,9 @@ static std::string checkLP(const SPxLPBase<T>& lp, const char* tag)
          nan++;
       else if(lp.lhs(i) > lp.rhs(i))
          lhsrhs++;
+
+      if(lp.lhs(i) >= big || lp.rhs(i) <= mbig)
+         infside++;
    }
 
    long matched = 0;
@@ -183,6 +186,9 @@ static std::string checkLP(const SPxLPBase<T>& lp, const char* tag)
 
       if(lp.maxObj(j) >= big || lp.maxObj(j) <= mbig)
          infc++;
+
+      if(lp.lower(j) >= big || lp.upper(j) <= mbig)
+         infside++;
    }
 
    if(dup == 0 && (long) byRow.size() != matched)
@@ -192,10 +198,14 @@ static std::string checkLP(const SPxLPBase<T>& lp, const char* tag)
       mirror++;
 
    o << "lp " << tag << " m=" << m << " n=" << n << " nnz=" << nnzR << " mirror_bad=" << mirror << " badidx=" << badidx
-     << " dup=" << dup << " zero=" << zero << " nan=" << nan << " inf_coef=" << infc << " lb_gt_ub=" << lbub << " lhs_gt_rhs=" << lhsrhs;
+     << " dup=" << dup << " zero=" << zero << " nan=" << nan << " inf_coef=" << infc << " inf_wrong_side=" << infside << " lb_gt_ub=" << lbub << " lhs_gt_rhs=" << lhsrhs;
 
    if(infc > 0)
       o << "\ninconsistent infinite-coefficient " << tag << " " << infc;
+
+   // a lower bound / left-hand side of +infinity or an upper bound / right-hand side of -infinity
+   if(infside > 0)
+      o << "\ninconsistent infinite-wrong-side " << tag << " " << infside;
 
    if(badidx > 0)
       o << "\ninconsistent index-range " << tag << " " << badidx;
@@ -390,9 +400,73 @@ static void testModel(const std::string& test, const char* path)
       }
    }
 
+   bool rat = test != "lp-real";
+
+   if(rat)
+   {
+      // the same gate for the bare rational reader; zero denominators first (arithmetic on them traps inside GMP)
+      SPxOut po;
+      po.setVerbosity(SPxOut::ERROR);
+
+      for(int v = SPxOut::ERROR; v <= SPxOut::INFO3; v++)
+         po.setStream((SPxOut::Verbosity)v, devnull);
+
+      SPxLPBase<Rational> preq;
+      preq.setOutstream(po);
+      preq.setTolerances(std::make_shared<Tolerances>());
+      NameSet qrn, qcn;
+      bool qok = preq.readFile(path, &qrn, &qcn);
+      printf("preread-rational ok=%d m=%d n=%d\n", qok, preq.nRows(), preq.nCols());
+
+      if(qok)
+      {
+         int zd = 0;
+         auto isZD = [](const Rational & q)
+         {
+            return denominator(q) == 0;
+         };
+
+         for(int i = 0; i < preq.nRows(); i++)
+         {
+            const SVectorBase<Rational>& rv = preq.rowVector(i);
+
+            for(int k = 0; k < rv.size(); k++)
+               zd += isZD(rv.value(k));
+
+            zd += isZD(preq.lhs(i)) + isZD(preq.rhs(i));
+         }
+
+         for(int j = 0; j < preq.nCols(); j++)
+         {
+            const SVectorBase<Rational>& cv = preq.colVector(j);
+
+            for(int k = 0; k < cv.size(); k++)
+               zd += isZD(cv.value(k));
+
+            zd += isZD(preq.lower(j)) + isZD(preq.upper(j)) + isZD(preq.maxObj(j));
+         }
+
+         if(zd > 0)
+         {
+            printf("inconsistent zero-denominator preread-rational %d\nskipped the LP is not self-consistent\ndone\n", zd);
+            fflush(stdout);
+            return;
+         }
+
+         std::string r = checkLP(preq, "preread-rational");
+         printf("%s\n", r.c_str());
+
+         if(r.find("\ninconsistent") != std::string::npos)
+         {
+            printf("skipped the LP is not self-consistent\ndone\n");
+            fflush(stdout);
+            return;
+         }
+      }
+   }
+
    SP s;
    quiet(s);
-   bool rat = test != "lp-real";
 
    if(rat)
    {
